@@ -141,7 +141,7 @@ class C01(Sim):
             "arities), sort mode, first-touch order of the lazy caches); non-trivial = >= 3 judged queries from >= 2 families")
     FAULT_KINDS = ["cache_drop"]
     PROBES = ["border_vertex_ring", "interior_vertex_ring", "sort_off", "query_after_drop", "miss_query", "polygon_face",
-              "genus>0", "multi_component", "fresh_single_query", "reordered_pass"]
+              "genus>0", "multi_component", "fresh_single_query", "reordered_pass", "isolated_vertex"]
     QUICK_RUNS = 6000
     THOROUGH_RUNS = 600000
     BLOCK = 50
@@ -156,6 +156,10 @@ class C01(Sim):
     def gen_config(self, rng, tier):
         size = rng.choice([2, 6, 12, 25, 40, 60] if tier == "quick" else [2, 6, 12, 25, 60, 120, 250, 400])
         pts, faces = surfgen.gen_surface(rng.fork("world"), size)
+        if rng.chance(0.15):
+            # isolated vertices (points no face uses): every ring is empty, they are interior, nothing else changes
+            for _ in range(rng.randint(1, 2)):
+                pts.append([rng.uniform(-1, 1), rng.uniform(-1, 1), 2.0])
         ref = RefSurface(len(pts), faces)
         decl = []
         if rng.chance(0.3):
@@ -196,6 +200,8 @@ class C01(Sim):
             self.probes["genus>0"] += 1
         if self.comps > 1:
             self.probes["multi_component"] += 1
+        if len({v for f in w["faces"] for v in f}) < len(w["points"]):
+            self.probes["isolated_vertex"] += 1
         self.border_v = sorted(r.border_vertices())
         self.interior_v = sorted(set(range(r.nv)) - set(self.border_v))
         self.edge_pairs = sorted(r.all_edge_pairs())
